@@ -514,6 +514,18 @@ def main_c24(run):
     run.cov["spec_disagreements"] = ndis
     # evaluation against the equivalent Python f-string
     cases = []
+    # every combination of expression kind x "=" debugging x conversion x format spec, one field each
+    for he, pe in (("x", "x"), ("y", "y"), ("lst", "lst"), ("(+ x 1)", "(x + 1)")):
+        for dbg in (False, True):
+            if dbg and not he.isalpha():
+                continue
+            for conv in ("", "!r", "!s", "!a"):
+                for spec in (None, "", ">5", "s", "{w}", "03d"):
+                    h = "{" + he + (" = " if dbg else "") + (((("" if dbg else " ") + conv)) if conv else "") + \
+                        (((" " if conv or not dbg else "") + ":" + spec) if spec is not None else "") + "}"
+                    p_ = "{" + pe + (" = " if dbg else "") + conv + ((":" + spec) if spec is not None else "") + "}"
+                    cases.append((h, p_, True))
+                    cases.append(("a" + h + "b", "a" + p_ + "b", True))
     for _ in range(1500 if q else 60000):
         h, p_, good = gen_fstring(rng)
         cases.append((h, p_, good))
